@@ -3,7 +3,7 @@
    pending delay; chains of transitions by induction.  All statements here are over Q. *)
 From Coq Require Import ZArith QArith Qround Qabs Bool List Lia Lqa.
 From Bardolph Require Import Base.PyNum Num.UnitsQ Gen.ParamGen Gen.ColorsysGen Gen.UnitsGen Gen.MachineUnitsGen
-     Num.UnitsFloat Num.Switch Num.UnitsQProofs Num.SwitchProofs Num.ColorsysQProofs Num.RgbQProofs.
+     Num.UnitsFloat Num.Switch Num.UnitsQProofs Num.SwitchProofs Num.ColorsysQProofs Num.GuardedRgb Num.RgbQProofs.
 Import ListNotations.
 Open Scope Q_scope.
 
@@ -413,7 +413,7 @@ Qed.
 
 (* rgb_to_raw hands kelvin through untouched (the statement that a rounding of kelvin breaks) *)
 Lemma rgb_to_raw_Q_kelvin : forall c : color4 Q, c3 (rgb_to_raw_Q c) = c3 c.
-Proof. intro c. unfold rgb_to_raw_Q. destruct (rgb_to_hsv_Q _ _ _) as [[h s] v]. reflexivity. Qed.
+Proof. intro c. unfold rgb_to_raw_Q. destruct (guarded_rgb_to_hsv_Q _ _ _) as [[h s] v]. reflexivity. Qed.
 
 Lemma param_16_Q_zero : forall q, q == 0 -> param_16_Q q = 0%Z.
 Proof. intros q H. rewrite (param_16_Q_comp q (inject_Z 0)) by (rewrite H; reflexivity). apply param_16_Q_int. lia. Qed.
@@ -425,7 +425,7 @@ Proof.
     destruct V as [Vk [Vd [Vt _]]]. simpl in *.
     unfold switch_Q, g_switch, valid_regs; simpl. unfold_regs.
     unfold rgb_to_raw_Q; simpl.
-    destruct (rgb_to_hsv_Q _ _ _) as [[h' s'] v']. simpl.
+    destruct (guarded_rgb_to_hsv_Q _ _ _) as [[h' s'] v']. simpl.
     assert (R : forall x, 0 <= z2q (py_round_Q (py_max_Q (z2q 0) (py_min_Q x (z2q 65535)))) /\
                           z2q (py_round_Q (py_max_Q (z2q 0) (py_min_Q x (z2q 65535)))) <= 65535).
     { intro x. pose proof (param_16_Q_range x) as [A B]. unfold param_16_Q in A, B. unfold z2q at 1 3.
@@ -442,14 +442,14 @@ Proof.
   intros r Hm V.
   destruct r as [h0 s0 b0 k rd gr bl d t m]. simpl in Hm. subst m.
   destruct V as [Vk [Vd [Vt [Vr0 [Vr1 [Vg0 [Vg1 [Vb0 Vb1]]]]]]]]. simpl in *.
-  pose proof (rgb_to_hsv_Q_range _ _ _ (in01_pct rd Vr0 Vr1) (in01_pct gr Vg0 Vg1) (in01_pct bl Vb0 Vb1)) as Rg.
+  pose proof (guarded_rgb_to_hsv_Q_range _ _ _ (in01_pct rd Vr0 Vr1) (in01_pct gr Vg0 Vg1) (in01_pct bl Vb0 Vb1)) as Rg.
   rewrite !set_transmits_Q_eq.
   unfold switch_Q, g_switch; simpl. unfold_regs.
   unfold as_raw_color_Q, g_as_raw_color, as_raw_time_Q, g_as_raw_time.
   rewrite rgb_to_raw_Q_sent, rgb_to_raw_Q_kelvin. simpl c0; simpl c1; simpl c2; simpl c3.
   unfold valid_regs, sent_rel, sent_color, delay_ms, pending_wait_Q; simpl.
   unfold rgb_to_logical_Q; simpl.
-  destruct (rgb_to_hsv_Q (rd / (100 # 1)) (gr / (100 # 1)) (bl / (100 # 1))) as [[h s] v].
+  destruct (guarded_rgb_to_hsv_Q (rd / (100 # 1)) (gr / (100 # 1)) (bl / (100 # 1))) as [[h s] v].
   destruct Rg as [[Hh0 Hh1] [[Hs0 Hs1] [Hv0 Hv1]]]. simpl.
   split; [| split].
   - repeat split; try assumption; lra.
@@ -524,8 +524,8 @@ Lemma sent_after_to_rgb : forall h s v (R G B k : Q),
 Proof.
   intros h s v R G B k Hh Hs Hv T.
   rewrite rgb_to_raw_Q_sent, rgb_to_raw_Q_kelvin. simpl c0; simpl c1; simpl c2; simpl c3.
-  pose proof (rgb_hsv_roundtrip h s v _ _ _ Hh Hs Hv T) as RT.
-  destruct (rgb_to_hsv_Q (R / (100 # 1)) (G / (100 # 1)) (B / (100 # 1))) as [[h' s'] v'].
+  pose proof (guarded_rgb_hsv_roundtrip h s v _ _ _ Hh Hs Hv T) as RT.
+  destruct (guarded_rgb_to_hsv_Q (R / (100 # 1)) (G / (100 # 1)) (B / (100 # 1))) as [[h' s'] v'].
   destruct RT as [Rv [Rdeg Rgen]].
   destruct Hh as [Hh0 Hh1]. destruct Hs as [Hs0 Hs1]. destruct Hv as [Hv0 Hv1].
   unfold same_colour; simpl. split; [reflexivity |].
